@@ -24,10 +24,24 @@ FINDINGS = {
 }
 
 
+def annotate(op, reply):
+    if op.startswith("lockc ") and reply.startswith("lockc "):
+        w = reply.split()
+        if len(w) > 2 and w[2] in ("acq", "cancel"):
+            return op + " " + w[2]
+    return op
+
+
 def spec_safety(rep):
     """mutual exclusion / liveness on the implementation's replies"""
     for op, line in zip(rep["ops"], rep["impl"]):
         w = dict(x.split("=", 1) for x in line.split() if "=" in x)
+        try:
+            if int(w.get("residual", "0")) > 0:
+                return ("after `%s` %s caller(s) whose Lock call returned an error are still queued (%s): nobody can "
+                        "unlock them, their keys stay locked and their queues can never be pruned" % (op, w["residual"], line))
+        except ValueError:
+            pass
         try:
             if int(w.get("holders", "0")) > 1:
                 return "after `%s` %s callers hold the same key at once (%s)" % (op, w["holders"], line)
@@ -50,7 +64,32 @@ def spec_prune(rep):
     return None
 
 
+def spec_trace(rep):
+    """C28s: the log is the implementation's behaviour"""
+    for op in rep["ops"]:
+        w = op.split()
+        if w and w[0] == "hang":
+            return "a Lock call never returned under concurrent load (log ends with `hang`)"
+        if len(w) == 3 and w[0] == "count" and w[2] == "0" and w[1] != "0":
+            return "at a quiescent point nothing is queued on any key but the queue map holds %s entries" % w[1]
+    # two queue objects of one key holding callers at the same time
+    live = {}
+    for op in rep["ops"]:
+        w = op.split()
+        if len(w) == 4 and w[0] == "dead":
+            # (logged before the map delete; the `rm` line of the same removal follows it)
+            live.setdefault(w[1], {})[w[2]] = False
+        if len(w) == 6 and w[0] in ("enq", "rm") and w[5].startswith("c=["):
+            key, q = w[1], w[2]
+            live.setdefault(key, {})[q] = w[5] != "c=[]"
+            if sum(1 for v in live[key].values() if v) > 1:
+                return "after `%s` two queue objects of key %s hold callers at once: both heads believe they own the key" % (op, key)
+    return None
+
+
 def spec_violated(rep):
+    if rep.get("correspondence") == "C28s":
+        return spec_trace(rep)
     return spec_safety(rep) or spec_prune(rep)
 
 
@@ -61,24 +100,34 @@ def run(ctx):
     if K.build_hx(ctx) and K.build_drv(ctx):
         prune = "yes" if (facts.get("pruneVariant") == "yes" and facts.get("deleteCalls") not in ("0", "unknown")) else "no"
         args = ["prune=" + prune]
-        c = K.correspondence(ctx, "C28", args)
+        c = P.correspondence_observed(ctx, "C28", args, annotate)
         corrs.append(("C28", args, c))
+        # genuinely concurrent run; the hook log (each line written under the queue's own mutex) must be a
+        # trace of the lock-map model
+        targs = args + ["mode=trace"]
+        ct = K.correspondence(ctx, "C28s", targs, drv_domain="C28")
+        corrs.append(("C28s", targs, ct))
+        ctx.cov["trace_inclusion"] = {"domain": "C28s", "log_lines": len(ct.ops), "rounds": len(ct.cases),
+                                      "lines_rejected_by_model": len(ct.mismatch), "event_histogram": ct.op_hist}
     else:
         ctx.violation("harness does not build against the repository", {"correspondence": "C28", "log": getattr(ctx, "hx_log", "")[-2000:]},
                       tag="build", found_input=False)
     K.decide_standard(ctx, corrs, FINDINGS)
     K.report_mismatch(ctx, spec_violated)
     # the Spec oracle over the whole run (implementation replies only), independent of the model
-    for _, _, c in corrs:
+    for name, dargs, c in corrs:
         if c.err:
             continue
         pruned_seen = False
         for cs in c.cases:
             rep = K.case_replay(c, cs)
-            why = spec_safety(rep)
+            rep["correspondence"], rep["drv_args"] = name, dargs
+            why = spec_trace(rep) if rep.get("correspondence") == "C28s" else spec_safety(rep)
             if why:
                 ctx.violation("implementation violates the property: " + why, rep, tag="impl")
                 break
+            if rep.get("correspondence") == "C28s":
+                continue
             if not pruned_seen and "C28-queues-never-pruned" not in getattr(ctx, "confirmed", {}):
                 why = spec_prune(rep)
                 if why:
